@@ -333,16 +333,24 @@ func runE5Row(p *Program, sp *Spec, c *Collector, r *E5Row) bool {
 				default:
 					a, b = [2]val{{k: 'i', i: 1}, {k: 'i', i: 23}}, [2]val{{k: 'i', i: 12}, {k: 'i', i: 3}}
 				}
-				for _, order := range [][2]int{{0, 1}} {
-					_ = order
-					v1 := (&evaluator{e: env{t1: a[0], t2: a[1]}, missing: map[string]string{}, kinds: map[string]string{}}).eval(got, "string")
-					v2 := (&evaluator{e: env{t1: b[0], t2: b[1]}, missing: map[string]string{}, kinds: map[string]string{}}).eval(got, "string")
-					key := e5Key(r, "separates "+flds[i]+" / "+flds[j])
-					if v1.String() == v2.String() {
-						c.Ob(r.Props, "E5.key-identity", key, Violated, fmt.Sprintf("%s: (%s=%s, %s=%s) and (%s=%s, %s=%s) give the same key %s: the two parts are joined without a separator, so two different records share one entry", r.What, flds[i], a[0], flds[j], a[1], flds[i], b[0], flds[j], b[1], v1), pos, false)
-					} else {
-						c.Ob(r.Props, "E5.key-identity", key, Discharged, r.What+": "+flds[i]+" and "+flds[j]+" are kept apart in the key", pos, true)
+				key := e5Key(r, "separates "+flds[i]+" / "+flds[j])
+				collide := ""
+				// the key may mention the two parts in either order
+				probes := [][2][2]val{{a, b}}
+				if k1 == k2 {
+					probes = append(probes, [2][2]val{{a[1], a[0]}, {b[1], b[0]}})
+				}
+				for _, pr := range probes {
+					v1 := (&evaluator{e: env{t1: pr[0][0], t2: pr[0][1]}, missing: map[string]string{}, kinds: map[string]string{}}).eval(got, "string")
+					v2 := (&evaluator{e: env{t1: pr[1][0], t2: pr[1][1]}, missing: map[string]string{}, kinds: map[string]string{}}).eval(got, "string")
+					if v1.String() == v2.String() && collide == "" {
+						collide = fmt.Sprintf("(%s=%s, %s=%s) and (%s=%s, %s=%s) give the same key %s", flds[i], pr[0][0], flds[j], pr[0][1], flds[i], pr[1][0], flds[j], pr[1][1], v1)
 					}
+				}
+				if collide != "" {
+					c.Ob(r.Props, "E5.key-identity", key, Violated, r.What+": "+collide+": the two parts are joined without a separator, so two different records share one entry", pos, false)
+				} else {
+					c.Ob(r.Props, "E5.key-identity", key, Discharged, r.What+": "+flds[i]+" and "+flds[j]+" are kept apart in the key", pos, true)
 				}
 			}
 		}
